@@ -21,6 +21,9 @@ SPEC = dict(
             invariants=END, bugs=[("stopKeepsStack", END, []), ("staleChoiceAfterEnd", END, [])]),
     cs=[dict(family="flowbig", n=(60, 400), paths=(4, 6), calls=45,
              label="YarnTrace: random walks continued after the end"),
+        # <<stop>> nine and more bodies deep, with statements remaining at every level
+        dict(family="huge", n=(12, 80), paths=(2, 3), calls=120,
+             label="YarnTrace: very big programs (stops deep inside) continued after the end"),
         # ends reached next to commands (pending ones, handlers the host registered under `stop`)
         dict(family="cmds", n=(40, 300), paths=(3, 5), calls=40,
              label="YarnTrace: dialogues with commands continued after the end")],
